@@ -69,6 +69,26 @@ Proof.
 Qed.
 Print Assumptions C05_pool_progress.
 
+(* The triggering window: what Run.run computes never lies beyond what the property allows (the
+   earlier of max-duration less the 10 ms guard and the trigger's own duration), so a trigger that
+   finds no more than code_window left on its context satisfies the predicate the harness applies. *)
+Theorem C05_trigger_window : forall max_d trig_d remaining slack,
+  0 <= slack -> remaining <= code_window max_d trig_d ->
+  code_window max_d trig_d <= allowed_window max_d trig_d /\ window_ok max_d trig_d remaining slack = true.
+Proof.
+  intros max_d trig_d remaining slack Hs Hr.
+  assert (H : code_window max_d trig_d <= allowed_window max_d trig_d).
+  { unfold code_window, allowed_window, guard_ns.
+    destruct (0 <? trig_d) eqn:E1; destruct (trig_d <? max_d) eqn:E2; cbn [andb]; lia. }
+  split; [exact H|]. unfold window_ok. lia.
+Qed.
+Print Assumptions C05_trigger_window.
+
+Example C05_trigger_window_example :
+  code_window 400000000 399000000 = 389000000 /\ allowed_window 400000000 399000000 = 390000000 /\
+  window_ok 400000000 399000000 399000000 1000000 = false /\ window_ok 400000000 0 390000000 0 = true.
+Proof. vm_compute. repeat split; reflexivity. Qed.
+
 (* Non-vacuity: a complete run (limit reached, two progress ticks on the way,
    one of them due exactly when Stop is called) that returns. *)
 Example C05_example :
